@@ -9,6 +9,6 @@ python3 tools/seedimport.py --round$N $props > /dev/null
 for p in $props; do git -C /repo worktree remove --force /tmp/seed$N/$p 2>/dev/null || true; done
 git -C /repo worktree prune
 (ls -d seeded/*-r$N? | xargs -P 6 -n 1 python3 tools/seedrun.py confirm) 2>&1 | grep -v ": CONFIRMED" || true
-for d in seeded/*-r$N?; do python3 tools/seedrun.py detect $d; done > /tmp/r${N}detect.log 2>&1
+for d in seeded/*-r$N?; do python3 tools/seedrun.py detect $d || true; done > /tmp/r${N}detect.log 2>&1
 grep -a "exit=0\|exit=2\|does not apply\|refusing" /tmp/r${N}detect.log | cut -c1-200 || true
 echo "detected: $(grep -ac 'exit=1' /tmp/r${N}detect.log) of $(ls -d seeded/*-r$N? | wc -l)"
